@@ -15,7 +15,9 @@ RULE = ('Generated sequences of EVENT/BINARY_EVENT packets (ids None, 0, '
         'a binary header and its attachments) from several clients on several '
         'namespaces, with connects, disconnects and events on unconnected '
         'namespaces in between, against a server with function handlers, a '
-        'catch-all and a class-based namespace; async_handlers on/off (on: '
+        'catch-all and a class-based namespace (optionally also a function '
+        'handler on the catch-all namespace for an event nobody sends); '
+        'async_handlers on/off (on: '
         'background tasks collected and run in a generated order); both '
         'servers. Oracle: exactly one invocation (right target, sender sid, '
         'args) per event on a connected namespace, none otherwise; exactly '
@@ -85,6 +87,9 @@ def strategy(tier):
     return st.fixed_dictionaries({
         'aio': st.booleans(), 'async_handlers': st.booleans(),
         'coro': st.booleans(),
+        # the catch-all namespace has a function handler for an event no
+        # client ever sends (it is responsible for nothing here)
+        'star_other': st.booleans(),
         'init': st.lists(st.tuples(st.integers(0, 3), st.integers(0, 3)),
                          min_size=2, max_size=6),
         'ops': st.lists(op, min_size=1, max_size=25 if not big else 60)})
@@ -145,6 +150,8 @@ def _run(case, w):
         sio.on(name, mk('fn:/:' + name), namespace='/')
     sio.on('a', mk('fn:/x:a'), namespace='/x')
     sio.on('*', mk('catchall:/x'), namespace='/x')
+    if case.get('star_other'):
+        sio.on('never sent', mk('fn:*:never sent'), namespace='*')
 
     base = socketio.AsyncNamespace if aio else socketio.Namespace
 
